@@ -37,7 +37,7 @@ class C15(Prop):
     def harness(self, ctx):
         env = build_bridge(ctx)
         obs = {}
-        for name in ("C15Conn", "C15Bridge", "C15Route"):
+        for name in ("C15Conn", "C15Bridge", "C15Route", "C15Idle"):
             rc, out, p, dt = C.go_test_overlay(ctx.work, "./utils/tcpbridge/connection/", "TestVerif%s$" % name, OVERLAY, name + ".jsonl", ctx.seed, ctx.tier, timeout=1800, extra_env=env)
             rows = C.read_jsonl(p)
             if rc != 0 or not rows:
@@ -61,6 +61,13 @@ class C15(Prop):
                         "websocket upgrade on" if r["upgrade"] else "plain request to", r["path"], r.get("tcp_connections"), r.get("handshake")), rp))
                 elif len(passed) != 1 or r["path"] not in passed[0]:
                     res.append(("route:passthrough-altered", "the pass-through handler saw %s for %r" % (passed, r["path"]), rp))
+        for r in obs.get("C15Idle", []):
+            rp = {"driver": "TestVerifC15Idle: TCP client <-> tcp-bridge-frontend <=ws=> tcp-bridge-backend <-> TCP server, one direction silent for %s ms" % r.get("gap_ms"), "observed": r}
+            if r.get("err"):
+                res.append(("bridge-connect-error", r["err"], rp))
+            elif r.get("received") != r.get("expected"):
+                res.append(("idle:bytes-after-silence-lost", "scenario %s: the client received %r of %r (%s after %s ms) although neither peer had closed" % (
+                    r["scenario"], r.get("received"), r.get("expected"), r.get("client_err", "no error"), r.get("client_err_after_ms")), rp))
         for r in obs["C15Conn"]:
             if r["kind"] == "read":
                 exp = b""
